@@ -34,6 +34,12 @@ NEEDS = {
  "C13-c": ("C13", "init_xor_hd_code hd=4 shape check merged: (5,6,4) accepted with NULL tables, first use crashes"),
  "C14-c": ("C14", "alloc_desc skips the in-use scan unless the counter wrapped in THIS call: create, create, destroy(first), counter at INT_MAX, create, create -> live descriptor reissued"),
  "C17-c": ("C17", "reconstruct: segment pointer arrays freed early on the success path only: a failing back-end reconstruct leaks them"),
+ "C02-d": ("C02", "flat-XOR reconstruct of a PARITY destination with hd or more erasures, one of them a data fragment of that parity's equation: the GE_HD refusal was restricted to data destinations, the void fallback drops decode's -1"),
+ "C04-d": ("C04", "rs_galois_mult returns 0 for operands >= GROUP_SIZE: the field element 0xFFFF (data word 0xFFFF in parity rows >= 2; matrix generation for k >= 7, k+m >= 16 where 15^5 = 0xFFFF occurs)"),
+ "C08-d": ("C08", "get_fragment_size on an unknown/destroyed descriptor returns +204 instead of -204"),
+ "C16-d": ("C16", "rs_galois_init_tables no longer counts the second and later users: two live rs_vand instances, destroy one -> shared tables freed under the survivor"),
+ "C19-d": ("C19", "isa_l_decode early 'only parity missing' exit with the data mask short by one: the last data fragment (k-1) missing alone is not rebuilt"),
+ "C20-d": ("C20", "forced checks skip a fragment whose index already appeared earlier in the INPUT list: an invalid copy followed by a valid copy of the same index loses the valid one"),
  "C20-a": ("C20", "force_metadata_checks with erasures AND corruption together: 'valid < k' replaced by 'invalid > m'"),
 }
 def main():
